@@ -187,10 +187,9 @@ theorem offset_resaved (c : OpCodec Ω) (s s' : St Ω) (node node' : Nat) (incom
     (hl : loadOffset c s node off? incoming = .ok w) :
     (off? = none → w = if r.isSome then -1 else 0) ∧
     constrainOffset c s' node' w incoming = .ok (savedOffset off? r) := by
-  simp only [loadOffset, hd, liftS, hr, liftO] at hl
   cases off? with
   | none =>
-    simp only [Except.ok.injEq] at hl
+    simp only [loadOffset, hd, liftS, hr, liftO, Except.ok.injEq] at hl
     subst hl
     refine ⟨fun _ => rfl, ?_⟩
     cases r with
@@ -198,20 +197,26 @@ theorem offset_resaved (c : OpCodec Ω) (s s' : St Ω) (node node' : Nat) (incom
     | some k => simp [constrainOffset, savedOffset, hd', liftS, hop, hr, liftO]
   | some o =>
     have ho := hnn o rfl
-    refine ⟨fun e => nomatch e, ?_⟩
-    split at hl
-    · rename_i he
-      simp only [Except.ok.injEq] at hl
-      subst hl
-      cases r with
-      | none => simp at he
-      | some k =>
-        simp only [Option.map_some, Option.some.injEq] at he
-        simp [constrainOffset, savedOffset, hd', liftS, hop, hr, liftO, he]
-    · simp only [Except.ok.injEq] at hl
-      subst hl
-      have : ¬ (o < 0) := by omega
+    refine ⟨fun e => (nomatch e), ?_⟩
+    cases r with
+    | none =>
+      simp only [loadOffset, hd, liftS, hr, liftO, Option.map_none] at hl
+      have hw : w = o := by simpa using hl.symm
+      subst hw
+      have : ¬ (w < 0) := by omega
       simp [constrainOffset, savedOffset, this]
+    | some k =>
+      simp only [loadOffset, hd, liftS, hr, liftO] at hl
+      change (if some (k : Int) = some o then Except.ok (-1) else Except.ok o) = Except.ok w at hl
+      simp only [Option.some.injEq] at hl
+      by_cases he : (k : Int) = o
+      · rw [if_pos he] at hl
+        cases hl
+        simp [constrainOffset, savedOffset, hd', liftS, hop, hr, liftO, he]
+      · rw [if_neg he] at hl
+        cases hl
+        have : ¬ (w < 0) := by omega
+        simp [constrainOffset, savedOffset, this]
 
 /-! ### metadata -/
 
